@@ -51,6 +51,10 @@ def tasks(tier, seed, prefix='C03'):
                            fuc=['segno.encoder.make_final_message'], weight=max(1, v)))
         ts.append(Task('placement[%s]' % iso.version_name(v), MOD, 'task_placement', (prefix, v), backend='cc-sym',
                        fuc=['segno.encoder.add_codewords'], weight=max(1, v) * 3))
+    if prefix == 'C03':
+        # the blocks are built from a data stream padded to the capacity of the level that is also used for the block layout (glue of _encode)
+        from . import glue
+        ts += glue.glue_tasks('C03')
     return ts
 
 
